@@ -10,6 +10,7 @@ import (
 	"runtime/pprof"
 	"strconv"
 	"strings"
+	"time"
 
 	"github.com/zclconf/go-cty/cty"
 	ctyjson "github.com/zclconf/go-cty/cty/json"
@@ -201,7 +202,7 @@ func genCase(r *core.Rand, thorough, onlyMP bool) *tcase {
 	if thorough {
 		maxDepth = 4
 	}
-	cls := r.Weighted([]int{38, 40, 4, 4, 5, 3, 3, 3})
+	cls := r.Weighted([]int{38, 40, 4, 5, 5, 3, 3, 2})
 	// 0 json encoding, 1 msgpack encoding, 2 bare type descriptor, 3 json wrapper, 4 msgpack wrapper, 5 raw, 6 cross, 7 deep
 	if onlyMP && (cls == 0 || cls == 2 || cls == 3) {
 		return nil
@@ -438,11 +439,22 @@ func (Driver) Run(c *core.Ctx) {
 			pprof.StartCPUProfile(f)
 			defer pprof.StopCPUProfile()
 		}
+		defer func() {
+			for k, v := range profTimes {
+				fmt.Fprintf(os.Stderr, "TIME %-30s %v\n", k, v)
+			}
+		}()
 	}
+	// 16 workers run side by side: one thread for the cases, one for the collector
+	runtime.GOMAXPROCS(2)
 	nb, nr := split(c)
 	total := int64(c.N(quickTotal, thoroughTotal))
 	e := &executor{c: c, mm: newMemMon()}
 	thorough := !c.Quick()
+	corpusOnly := os.Getenv("C17_CORPUS_ONLY") != "" // development aid: fixed corpus only
+	if corpusOnly {
+		total = 0
+	}
 	if c.Batch < nb {
 		if c.Batch == 0 {
 			runCorpus(e, false)
@@ -838,7 +850,7 @@ func (e *executor) checkType(site string, tc *tcase, t cty.Type, allowOptional b
 	g := guard(func() {
 		bad := typeWellFormed(t, allowOptional, 0)
 		if bad == "" {
-			if tc.class != "deep" {
+			if len(tc.input) <= 2048 { // the library's GoString is quadratic in the nesting depth
 				_ = t.GoString()
 			}
 			_ = t.FriendlyName()
@@ -865,8 +877,20 @@ func clipStr(s string, n int) string {
 	return s[:n] + fmt.Sprintf("...(+%d)", len(s)-n)
 }
 
+var profTimes = map[string]time.Duration{}
+
 func (e *executor) runCase(idx int64, tc *tcase, fam int) {
 	c := e.c
+	if os.Getenv("C17_PROF") != "" {
+		t0 := time.Now()
+		defer func() {
+			d := time.Since(t0)
+			profTimes[tc.class+":"+tc.format] += d
+			if d > 500*time.Millisecond {
+				fmt.Fprintf(os.Stderr, "SLOW %v case %d %s\n", d, idx, clipStr(tc.describe(), 300))
+			}
+		}()
+	}
 	c.Begin(idx, tc.describe)
 	c.Count("class:" + tc.class + ":" + tc.format)
 	c.Count(fmt.Sprintf("mutations:%d", len(tc.muts)))
